@@ -96,6 +96,10 @@ impl ValidationReport {
     pub fn process(
         engine: &Engine, config: &Config, initial: bool,
     ) -> Result<(Self, Metrics), RunFailed> {
+        #[cfg(routinator_verif)]
+        if let Some(err) = verif_hooks::forced_run_outcome() {
+            return Err(err)
+        }
         let report = Self::new(config);
         let mut run = engine.start(&report, initial)?;
         run.process()?;
@@ -899,3 +903,33 @@ impl<'a> AllVrpMetrics<'a> {
     }
 }
 
+
+
+//------------ Verification hooks --------------------------------------------
+
+/// Fault injection for verification replays (`--cfg routinator_verif` only).
+///
+/// The environment variable `ROUTINATOR_VERIF_RUN_OUTCOMES` holds a
+/// comma-separated list with one entry per validation run of the process:
+/// `retry` and `fatal` make that run fail with the respective error before
+/// it starts, anything else lets it proceed. Runs beyond the end of the list
+/// repeat the last entry.
+#[cfg(routinator_verif)]
+mod verif_hooks {
+    use std::sync::atomic::{AtomicUsize, Ordering};
+    use crate::error::RunFailed;
+
+    static RUNS: AtomicUsize = AtomicUsize::new(0);
+
+    pub fn forced_run_outcome() -> Option<RunFailed> {
+        let spec = std::env::var("ROUTINATOR_VERIF_RUN_OUTCOMES").ok()?;
+        let n = RUNS.fetch_add(1, Ordering::SeqCst);
+        eprintln!("routinator_verif: validation run {}", n + 1);
+        let items: Vec<&str> = spec.split(',').collect();
+        match items.get(n).or(items.last()).map(|s| s.trim()) {
+            Some("retry") => Some(RunFailed::retry()),
+            Some("fatal") => Some(RunFailed::fatal()),
+            _ => None
+        }
+    }
+}
